@@ -19,7 +19,7 @@ track tt u ul var video wbr xmp event-source""".split()
 SVG_NAMES = """svg foreignObject foreignobject desc title path g circle use altGlyph altglyph clipPath
 lineargradient textPath script style a font image""".split()
 MATH_NAMES = "math mi mo mn ms mtext annotation-xml mglyph malignmark semantics mrow".split()
-ODD_NAMES = ["x", "m", "h", "ht", "htm", "tml", "a:b", "xlink:href", "é", "a<b", "a\"b", "a=b", "p\x00", "DIV", "Table",
+ODD_NAMES = ["a\xc9", "a\xe9", "a\u212a", "ak", "a\u0130", "ai\u0307", "m\u03a9", "m\u03c9", "a}b", "o:p", "x\xa0y", "x", "m", "h", "ht", "htm", "tml", "a:b", "xlink:href", "é", "a<b", "a\"b", "a=b", "p\x00", "DIV", "Table",
              "sVg", "MATH", "h7", "x-y", "a1", "tr/", "b\ud800", "\U0001F600x".replace("\U0001F600", "q\U0001F600")]
 
 FORMATTING = "a b big code em font i nobr s small strike strong tt u".split()
@@ -57,7 +57,7 @@ ATTR_NAMES = ["id", "class", "a", "b", "title", "type", "encoding", "color", "fa
 ATTR_VALUES = ["&amp;lt;", "&amp;#60;x", "&amp;amp", "a&amp;b;", "", "1", "x", "hidden", "HIDDEN", "text/html", "TEXT/HTML", "application/xhtml+xml", "a b", "&amp;", "&amp",
                "&lt", "a>b", "a<b", "'", "\"", "`", "=", "\x00", "é", "\U0001F600", "javascript:alert(1)", "x\ny",
                "&#x41;", "&notit;", "utf-8", "text/html; charset=utf-8", "content-type", "</p>", "-->", "\ud83d",
-               "\xc9cole", "\xc4=1", "\xd1;", "\xc0"]     # capitals whose legacy entity name exists without ';' (matters under a narrow output encoding)
+               "\xc9cole", "\xc4=1", "\xd1;", "\xc0", "\u2264", "\u2229\u222a"]     # capitals whose legacy entity name exists without ';' (matters under a narrow output encoding)
 
 
 TEXT_ATOMS = ["&amp;lt;", "&amp;#60;", "&amp;amp;", "a", "b", "x", "y", "1", " ", " ", "\n", "\t", "\f", "\r", "\r\n", "\x00", "&amp;", "&lt", "&#x41;", "&", "&#0;",
@@ -65,7 +65,7 @@ TEXT_ATOMS = ["&amp;lt;", "&amp;#60;", "&amp;amp;", "a", "b", "x", "y", "1", " "
               "&#xD800;", "&#x80;", "\x7f", " ", "/", "!",
               "\xc9;", "\xc9c", "&#x10FFFF;", "&#x110000;", "&#1114111", "&#xFFFF;",
               # references to characters that are white space to Unicode / Python but not to HTML
-              "&nbsp;", "&#160;", "&emsp;", "&#x2003;", "&#11;", "&#x1f;", "&#x2028;", "&thinsp;", "&#x3000;", "\x0b", "\x1c", "\u2003", "&#13;", "a&#xD;b"]
+              "&nbsp;", "&#160;", "&emsp;", "&#x2003;", "&#11;", "&#x1f;", "&#x2028;", "&thinsp;", "&#x3000;", "\x0b", "\x1c", "\u2003", "&#13;", "a&#xD;b", "\u2264", "\u2229x", "\u2282", "\u2220", "\ufeff"]
 
 COMMENTS = ["<!--c-->", "<!---->", "<!-->", "<!--->", "<!--a--!>", "<!-- -- -->", "<!--a--", "<!--", "<!x>", "<!>", "<?pi?>", "<?",
             "</ x>", "</>", "<!--<!---->", "<!--a-b--c--->", "<!--\x00-->", "<!---\x00-->", "<!--a\r\nb-->", "<!-- <p> -->",
@@ -83,7 +83,7 @@ DOCTYPES = ["<!DOCTYPE x SYSTEM \"a\">", "<!DOCTYPE html SYSTEM '\"a'>", "<!DOCT
             "<!DOCTYPE html PUBLIC \"-//W3C//DTD HTML 4.01 Frameset//EN\">", "<!DOCTYPE html PUBLIC \"-/W3C/DTD HTML 4.0 Transitional/EN\">",
             "<!DOCTYPE html PUBLIC \"-//w3c//dtd html 4.0 transitional//en\">"]
 CDATA = ["<![CDATA[x]]>", "<![CDATA[a]]]>", "<![CDATA[<p>]]>", "<![CDATA[", "<![CDATA[\x00]]>", "<![cdata[x]]>", "<![CDATA[a]]b]]>"]
-JUNK = ["<input type=hidden>", "<input type=HIDDEN>", "<p><b></p></b>", "<table><input type=hidden>", "<", "</", "<a", "<a b=\"", "<a b='x", "<a b", "<a b=", "<a /", "</a ", "<a/b=c>", "<a =b>", "< a>", "<a\x00b>", "<3",
+JUNK = ["<svg><a\xc9>x</a\xe9>y", "<math><m\u03a9>x</m\u03c9>y", "<svg><a\u212a>x</ak>y</svg>z", "<svg><a\u0130>x</ai\u0307>y", "<input type=hidden>", "<input type=HIDDEN>", "<p><b></p></b>", "<table><input type=hidden>", "<", "</", "<a", "<a b=\"", "<a b='x", "<a b", "<a b=", "<a /", "</a ", "<a/b=c>", "<a =b>", "< a>", "<a\x00b>", "<3",
         "</3>", "<a b=c d>", "<a b=\"c\"d>", "<a b=c/>", "<p/>", "<br/>", "<svg/>", "<a a=1 a=2>"]
 
 
